@@ -21,7 +21,7 @@ func FuzzC09(f *testing.F) {
 		f.Add([]byte("Content-Type: multipart/mixed; boundary=b\r\n\r\n--b\r\n"+d+"\r\nbody\r\n--b--\r\n"), byte(i), uint16(i))
 		f.Add([]byte(d), byte(i), uint16(3*i))
 	}
-	modes := []string{"whole", "string", "onebyte", "errat", "dataerr", "zeros"}
+	modes := []string{"whole", "string", "onebyte", "errat", "dataerr", "zeros", "file"}
 	p := core.Prop[c09Case]{ID: "C09", Test: "TestC09", Run: c09Run}
 	f.Fuzz(func(t *testing.T, data []byte, mode byte, k uint16) {
 		if len(data) > 64*1024 {
